@@ -8,7 +8,7 @@ from vlib.core import Case
 PROP = "C12"
 SPEC_MODE = "oracle"
 KEEP_PREFIX = 1
-SIZES = {"quick": 22000, "thorough": 220000}
+SIZES = {"quick": 23000, "thorough": 225000}
 BATCH = 5000
 SEARCH_TRIES = 60
 EXTRA_MODULES = ("Sentinel.Lemmas.BreakerRace",)
@@ -19,7 +19,7 @@ RULE = ("cases = one real breaker (error count / error ratio / slow ratio; timeo
         "threads ALL interleavings (binary strings with exactly maxsteps(t) entries per thread; finished threads are skipped, the rest drained), for the "
         "base configuration in quick and for all configurations in thorough; part 2: the same with a tick of timeout-1/timeout ms inserted and with "
         "two-call threads (sampled); part 3: random 2-3 thread programs (1-3 calls) with random schedules, a fixed slice aimed at each known-finding "
-        "window. rule reloads (LoadRules with an identical / equal / tuned but stat-reusable rule as one schedule step `rd:`) while calls are under way on the old breaker object: 644 exhaustive cases in quick (11 592 in thorough) + 10 % of the random stream; non-trivial = the state word changed during the concurrent phase; distinct by (configuration, set-up, sequence of (thread, yield point) steps)")
+        "window. rule reloads (LoadRules with an identical / equal / tuned but stat-reusable rule as one schedule step `rd:`) while calls are under way on the old breaker object: 644 exhaustive cases in quick (11 592 in thorough) + 10 % of the random stream; two breakers per resource with LoadRulesOfResource(list) by one thread — `x` entries = yield points inside the rebuild — interleaved with request threads: 336 exhaustive cases in quick (2 016 in thorough) + 8 % of the random stream; non-trivial = the state word changed during the concurrent phase; distinct by (configuration, set-up, sequence of (thread, yield point) steps)")
 
 
 def fbits(x):
@@ -40,6 +40,8 @@ MAXSTEPS = {"tp": 3, "tpb": 4, "c": 5, "rd": 1}
 
 
 def steps_of(call):
+    if call.startswith("rl:"):
+        return 1 + call.count("x")
     return MAXSTEPS["c" if call.startswith("c:") else "rd" if call.startswith("rd:") else call]
 
 
@@ -146,6 +148,45 @@ def reload_case(rng, cid, c):
     return case_of(cid, c, rng.choice(SETUPS), progs, rand_sched(rng, progs, c), ("reload",))
 
 
+LIST_SPECS = ["0,1,x", "1,0,x", "x,0,1", "0,x,1", "0,x", "1,x", "0,1,2,x", "2,x,0,1", "x,2,x", "0,1", "1,0", "0,1,x,x"]
+
+
+def list_case(cid, c, opened, tick, spec, others, sched, tags=()):
+    """two breakers per resource (rule 0 = the configuration, rule 1 = the same with minRequestAmount + 100, rule 2 = double retry
+    timeout), optionally rule 0's breaker opened, then LoadRulesOfResource(spec) by thread 0 — `x` = a yield point inside the
+    rebuild — interleaved with the requests of the other threads"""
+    kind, to, mr, thr, pn, mx = c[:6]
+    ops = [cfg_line(c), f"rule 1 {to} {mr + 100} {thr} {pn} {mx}", f"rule 2 {2 * to} {mr} {thr} {pn} {mx}",
+           "thread 0 rl:0,1", "sched"]
+    if opened:
+        ops += ["thread 0 " + " ".join([c[8]] * c[6]), "sched"]
+    if tick:
+        ops.append(f"sched tick:{tick}")
+    ops.append(f"thread 0 rl:{spec}")
+    for i, p in enumerate(others):
+        ops.append(f"thread {i + 1} " + " ".join(p))
+    ops += ["sched " + " ".join(str(x) for x in sched), "results", "log", "final"]
+    return Case(cid, ops, tags=(c[0], f"probe={c[4]}", "list-" + ("open" if opened else "closed"), f"threads={1 + len(others)}") + tuple(tags))
+
+
+def exhaustive_list(configs):
+    for ci, c in enumerate(configs):
+        for opened, tick in ((True, 0), (True, c[1]), (False, 0)):
+            for spec in ("0,1,x", "1,0,x", "0,x", "x,0,1"):
+                other = ["tp", "tp"]
+                for k, s in enumerate(interleavings([1 + spec.count("x"), 6])):
+                    yield list_case(f"l{ci}-{int(opened)}-{tick}-{spec}-{k}", c, opened, tick, spec, [other], s, ("exhaustive-list",))
+
+
+def list_reload_case(rng, cid, c):
+    spec = rng.choice(LIST_SPECS)
+    others = [rand_prog(rng, c, 3) for _ in range(rng.choice([1, 1, 2]))]
+    progs = [["rl:" + spec]] + others
+    opened = rng.random() < 0.7
+    tick = rng.choice([0, 0, c[1] - 1, c[1]]) if opened else 0
+    return list_case(cid, c, opened, tick, spec, others, rand_sched(rng, progs, c), ("list-reload",))
+
+
 def rand_sched(rng, progs, c, n_ticks=None):
     total = sum(sum(steps_of(x) for x in p) for p in progs)
     ids = [i for i, p in enumerate(progs) for _ in range(sum(steps_of(x) for x in p))]
@@ -196,6 +237,8 @@ def stream(ctx):
         yield case
     for case in exhaustive_reload(CONFIGS[:1] if quick else CONFIGS, ["closed", "halfopen"] if quick else SETUPS):
         yield case
+    for case in exhaustive_list(CONFIGS[:1] if quick else CONFIGS):
+        yield case
     i = 0
     while True:
         i += 1
@@ -204,8 +247,10 @@ def stream(ctx):
         r = rng.random()
         if r < 0.12:
             yield known_slice(rng, cid, c)
-        elif r < 0.22:
+        elif r < 0.20:
             yield reload_case(rng, cid, c)
+        elif r < 0.28:
+            yield list_reload_case(rng, cid, c)
         elif r < 0.37:   # part 2a: two single-call threads, all-steps schedule with ticks
             a, b = rng.choice(menu(c)), rng.choice(menu(c))
             progs = [[a], [b]]
@@ -266,7 +311,7 @@ def nontrivial(case, impl):
     if not scheds:
         return None
     last = scheds[-1].partition(" => ")[2].split()
-    states = [t.split(":")[2] for t in last if t.count(":") >= 5]
+    states = ["".join(f.split(",")[1] for f in t.split(":") if f.startswith("W")) for t in last]
     if len(set(states)) < 2:
         return None
     return hash((case.ops[0], tuple(case.tags[2:3]), tuple(t.split(":")[0] + t.split(":")[1] for t in last)))
@@ -282,7 +327,8 @@ def run(ctx):
         st = stream(ctx)
         quick = ctx.tier == "quick"
         skip = (sum(1 for _ in exhaustive(CONFIGS[:1] if quick else CONFIGS))
-                + sum(1 for _ in exhaustive_reload(CONFIGS[:1] if quick else CONFIGS, ["closed", "halfopen"] if quick else SETUPS)))
+                + sum(1 for _ in exhaustive_reload(CONFIGS[:1] if quick else CONFIGS, ["closed", "halfopen"] if quick else SETUPS))
+                + sum(1 for _ in exhaustive_list(CONFIGS[:1] if quick else CONFIGS)))
         cases = list(itertools.islice(st, skip, skip + n))
         text = core.cases_text(cases)
         impl, err = core.run_impl(eng.binary, PROP, text)
@@ -313,7 +359,7 @@ META = {
                    "listeners exactly once, by its winner, with the CAS's expected value as prev (transition_once); with probeNum = 0 a TryPass returns true "
                    "only by reading Closed or by winning Open->HalfOpen, so nothing is admitted while the word is HalfOpen (single_probe). "
                    "no_early_admission is FALSE on the pinned code (early_probe_witness, aba_witness, by decide) and is proved outside the two classified "
-                   "windows (no_early_admission_partial); the order in which different threads' listener calls arrive is not part of the property and not judged (the CAS history is the path; listener_order_partial shows the log equals it when notifications do not overlap with other threads' steps). After a rule reload every breaker object (live or retired) is such a breaker and a call bound to one object never touches the words of another (reload_objects_are_breakers, world_step_frame). The model is tied to "
+                   "windows (no_early_admission_partial); the order in which different threads' listener calls arrive is not part of the property and not judged (the CAS history is the path; listener_order_partial shows the log equals it when notifications do not overlap with other threads' steps). After a rule reload every breaker object (live or retired) is such a breaker and a call bound to one object never touches the words of another; the published breaker list changes only when a load completes and a load keeps every reused breaker's words (reload_objects_are_breakers, world_step_frame, world_step_keeps_list, rebuild_keeps_objects). The model is tied to "
                    "core/circuitbreaker by running every schedule on the real breaker under the deterministic yield-hook scheduler and comparing, after "
                    "every step, yield points, state word, deadline, probe counter, listener calls and TryPass results; the same trace is judged by the oracle."),
     "level_note": ("Trusted: Lean kernel; axioms propext/Classical.choice/Quot.sound; the yield-hook scheduler (go/internal/sched) and the placement of the cb.* "
